@@ -100,7 +100,8 @@ def gen_graph(rng, ints=False):
             if ints:
                 numeric.append(nm)
         elif r < 0.55:
-            v = [rng.randrange(1, 9) for _ in range(rng.randrange(1, 4))]
+            # mostly short; one list in four has more than ten items, so that indices of two digits occur
+            v = [rng.randrange(1, 9) for _ in range(rng.randrange(1, 4) if rng.random() < 0.75 else rng.randrange(11, 15))]
             if rng.random() < 0.4:
                 v = [v, [0.5, 1.5] if not ints else [3, -4]]
             nodes.append(Node(nm, "lit", v))
@@ -115,7 +116,7 @@ def gen_graph(rng, ints=False):
         elif r < 0.76 and lists:
             tgt = rng.choice(lists)
             val = resolve_lit(nodes, tgt)
-            idx = [rng.randrange(len(val))]
+            idx = [rng.randrange(len(val)) if len(val) <= 10 or rng.random() < 0.4 else rng.randrange(10, len(val))]
             if isinstance(val[idx[0]], list):
                 if rng.random() < 0.6:
                     idx.append(rng.randrange(len(val[idx[0]])))
@@ -128,7 +129,8 @@ def gen_graph(rng, ints=False):
                 q = rng.random()
                 if flat_lists and q < 0.2:
                     ln = rng.choice(flat_lists)
-                    return ("idx", ln, [rng.randrange(len(next(x for x in nodes if x.name == ln).payload))])
+                    n_items = len(next(x for x in nodes if x.name == ln).payload)
+                    return ("idx", ln, [rng.randrange(n_items) if n_items <= 10 or rng.random() < 0.4 else rng.randrange(10, n_items)])
                 if q < 0.45 or depth > 1:
                     return ("ref", rng.choice(numeric))
                 if q < 0.55:
